@@ -303,7 +303,11 @@ CHECKS = {
          "executable), plus unencodable OPL strings, a mock OutputFormat and a mock compressor; per call result, returned size vs "
          "stat, read-back with the Reader, threads/descriptors from /proc, watchdog for hangs; thorough: every byte offset of the "
          "would-be output for 3 formats x 3 compressions x fsync. Recorded executions (queue hooks, WriteThread hooks, API "
-         "call/return) are validated by TLC against WriterPipelineTrace.tla.",
+         "call/return) are validated by TLC against WriterPipelineTrace.tla. Scripts also contain operator()(Buffer) with a buffer "
+         "the format encodes to nothing (only an Area / a bare TagList): as shipped the empty string travelled through the output "
+         "queue and was taken for the end-of-data marker (model variant emptyfix = FALSE violates CompleteOrThrows - second "
+         "negative control, MCWP_shipped_empty.cfg); the repaired model and the real Writer are checked for xml/opl/pbf x "
+         "plain/gzip/bzip2 x fsync (family 'empty').",
     design_ref="DESIGN.md section 4, C08",
     note="One fault per configuration. Byte offsets are instances of three offset classes of the spec (inside the output: allowed "
          "logs of 'unit 0 fails', a superset for later offsets; tail only produced while closing: only close() may throw; >= size: "
@@ -311,7 +315,10 @@ CHECKS = {
          "validation pins the poll in do_flush). For bzip2 the close fault is injected at fclose (glibc's internal close cannot be "
          "interposed). PBF is modelled for less than one primitive block. Real schedules are perturbed, not enumerated. Errors after "
          "a successful write (page cache) are only 'fsync fails'. In trace validation a kernel fault is represented by the "
-         "Compressor call observed to fail. Outcome-equivalent mutations (gzwrite / BZ2_bzWrite result ignored) are not detected.",
+         "Compressor call observed to fail. Outcome-equivalent mutations (gzwrite / BZ2_bzWrite result ignored) are not detected. Objects a "
+         "format cannot represent (Area, bare TagList) are skipped by its encoder and are not counted among 'the objects handed "
+         "in'; the check is that such a buffer neither ends the file nor loses later data. User-defined OutputFormats that push "
+         "empty pool results themselves are outside the check.",
     technique="TLA+ spec + TLC (safety, deadlock, liveness under fairness); spec-to-code replay with kernel-level fault injection; "
               "trace validation of recorded executions against the spec"),
  "C01": dict(
